@@ -119,6 +119,42 @@ def native_model(shape, seed, container="set", cse=True, transcendental=False, b
     return problems, sc
 
 
+def native_twin_models(seed=0):
+    """Two models compiled in the SAME process from the same update expressions over the same symbols, but with one symbol declared
+    as a control in the first and as a calibration value in the second (so the positional argument order of the compiled blocks
+    differs): anything remembered across compilations and keyed without the argument ORDER hands the second model the first one's
+    functions.  Each model is evaluated at its own inputs against the exact expressions.  Returns (problems, scenario)."""
+    from replay import shim
+    from replay.native import repo_import
+
+    problems = []
+    sc = scenarios.Scenario(3, 1, 2, [1], seed=seed + 9)
+    py = shim.install()
+    ui = repo_import("formak.ui")
+    moved = sorted(sc.control, key=lambda q: q.name)[-1]  # moving the LAST control in front of the others changes the positional order
+    pt = sc.point(seed)
+    try:
+        for cse in (True, False):
+            # first: as declared;  second: `moved` is a calibration value;  third: the first declaration again
+            variants = [(list(sc.control), list(sc.calibration)), ([u for u in sc.control if u is not moved], list(sc.calibration) + [moved]), (list(sc.control), list(sc.calibration))]
+            for vi, (ctl, cal) in enumerate(variants):
+                model_def = ui.Model(dt=sc.dt, state=set(sc.state), control=set(ctl), calibration=set(cal), state_model=dict(sc.state_model))
+                cm = {cs: float(pt[cs]) for cs in cal}
+                model = py.compile(model_def, calibration_map=cm, config={"common_subexpression_elimination": cse})
+                state = model.State(**{s.name: float(pt[s]) for s in sc.state})
+                control = model.Control(**{u.name: float(pt[u]) for u in ctl}) if ctl else None
+                out = model.model(float(pt[sc.dt]), state, control) if ctl else model.model(float(pt[sc.dt]), state)
+                for idx, s in enumerate(model.arglist_state):
+                    want = float(scenarios.exact(sc.state_model[s], pt))
+                    got = float(out.data[idx, 0])
+                    if abs(got - want) > 1e-9 * max(1.0, abs(want)):
+                        problems.append(f"model #{vi + 1} compiled in one process (cse={cse}; {moved.name} declared as {'calibration' if vi == 1 else 'control'}): returns {got} for state {s.name}, its update expression evaluates to {want}")
+                        break
+    except Exception as e:
+        problems.append(f"compiling/evaluating a valid model raised {type(e).__name__}: {(str(e).splitlines() or [''])[0]}")
+    return problems, sc
+
+
 def native_fn(shape, seed, container="set"):
     for cse in (True, False):
         problems, sc = native_model(shape, seed, container, cse)
@@ -161,6 +197,11 @@ def native_branchy(run, pid="C01"):
             pf += 1
             run.findings.append(Finding(f"{pid}.py.native_passthrough_program", "passthrough", problems[0], {"language": "python", "inputs": {"shape": [5, 1, 2], "seed": run.seed, "cse": cse, "passthrough": True}, "model_definition": sc.describe(), "oracle_verdict": problems[:4]}, True))
             break
+    run.native_runs += 1
+    tw, tsc = native_twin_models(run.seed)
+    run.bounded.append({"what": "three models compiled in one process from the same expressions over the same symbols, one symbol moved between control and calibration (different positional argument order), each evaluated against the exact expressions", "bound": "3 models x 2 CSE settings", "failures": len(tw), "counted_as_proved": False})
+    for p in tw[:1]:
+        run.findings.append(Finding(f"{pid}.py.native_twin_models", "twin", p, {"language": "python", "inputs": {"twin_models": True, "seed": run.seed, "shape": [3, 1, 2]}, "model_definition": tsc.describe(), "oracle_verdict": tw[:4]}, True))
     # ui.Model(proactive_simplify=True): the definition is simplified per state BEFORE compilation; the oracle is the user's own dict
     sf = 0
     for cse in (True, False):
@@ -245,6 +286,10 @@ def check(run):
 
 def replay_file(payload):
     inp = payload["inputs"]
+    if inp.get("twin_models"):
+        tw, _ = native_twin_models(inp.get("seed", 0))
+        print("replay C01 (twin models in one process):", tw[:3] or "every model computes its own expressions")
+        return not tw
     problems = []
     for cse in ([inp["cse"]] if "cse" in inp else [True, False]):
         p, sc = native_model(tuple(inp["shape"][:3]), inp.get("seed", 0), inp.get("container", "set"), cse, branchy=inp.get("branchy", False), passthrough=inp.get("passthrough", False), rename=inp.get("rename"), proactive_simplify=inp.get("proactive_simplify", False), rename_assumptions=inp.get("rename_assumptions", False))
